@@ -775,10 +775,13 @@ class EvolutionarySolver(RandomSearchSolver):
         ]
 
         for edge in edges:
-            possible_edges = set(edges) - circuit.find_incompatible_edges(edge)
+            # keep the order of the edge list: iterating over a set of edge tuples (which contain strings)
+            # depends on PYTHONHASHSEED, and with it the result of a seeded run
+            incompatible_edges = circuit.find_incompatible_edges(edge)
 
-            for another_edge in possible_edges:
-                edge_pair.append((edge, another_edge))
+            for another_edge in edges:
+                if another_edge not in incompatible_edges:
+                    edge_pair.append((edge, another_edge))
 
         return edge_pair
 
@@ -812,10 +815,11 @@ class EvolutionarySolver(RandomSearchSolver):
         ]
 
         for edge in e_edges:
-            possible_edges = set(p_edges) - circuit.find_incompatible_edges(edge)
+            incompatible_edges = circuit.find_incompatible_edges(edge)
 
-            for another_edge in possible_edges:
-                edge_pair.append((edge, another_edge))
+            for another_edge in p_edges:
+                if another_edge not in incompatible_edges:
+                    edge_pair.append((edge, another_edge))
 
         return edge_pair
 
